@@ -92,36 +92,51 @@ Qed.
 Lemma is_reg_mode_eq a b : st_mode a = st_mode b -> is_reg a = is_reg b.
 Proof. intros E. unfold is_reg, st_is_dir, is_special. rewrite E. reflexivity. Qed.
 
+Lemma is_node_mode_eq a b : st_mode a = st_mode b -> is_node a = is_node b.
+Proof. intros E. unfold is_node, st_is_dir. rewrite E. reflexivity. Qed.
+
+Lemma is_reg_is_node st : is_reg st = true -> is_node st = true.
+Proof. unfold is_reg, is_node. rewrite !andb_true_iff. tauto. Qed.
+
+Lemma is_node_not_dir st : is_node st = true -> st_is_dir st = false.
+Proof. unfold is_node. rewrite andb_true_iff, !negb_true_iff. tauto. Qed.
+
+Lemma is_hardlink_node st : is_hardlink st = true -> is_node st = true /\ st_linkname st <> [].
+Proof.
+  unfold is_hardlink. rewrite andb_true_iff, negb_true_iff. intros [H1 H2]. split; auto.
+  intros E. rewrite E in H2. discriminate.
+Qed.
+
 (* an honest announcement is what the new name shows *)
 Lemma link_stat_honest t s : ino_meta_eq t s -> link_stat t s = s.
 Proof.
-  intros (H1 & H2 & H3 & H4 & H5 & H6 & H7 & H8). unfold link_stat. destruct (is_reg t); [|reflexivity].
+  intros (H1 & H2 & H3 & H4 & H5 & H6 & H7 & H8). unfold link_stat. destruct (is_node t); [|reflexivity].
   destruct s; simpl in *. subst. reflexivity.
 Qed.
 
 Lemma link_stat_path t s : st_path (link_stat t s) = st_path s.
-Proof. unfold link_stat. destruct (is_reg t); reflexivity. Qed.
+Proof. unfold link_stat. destruct (is_node t); reflexivity. Qed.
 
 Lemma link_stat_linkname t s : st_linkname (link_stat t s) = st_linkname s.
-Proof. unfold link_stat. destruct (is_reg t); reflexivity. Qed.
+Proof. unfold link_stat. destruct (is_node t); reflexivity. Qed.
 
 (* the new name shows the metadata of the inode it joined *)
-Lemma link_stat_meta t s : is_reg t = true -> ino_meta_eq (link_stat t s) t.
+Lemma link_stat_meta t s : is_node t = true -> ino_meta_eq (link_stat t s) t.
 Proof. intros E. unfold link_stat. rewrite E. unfold ino_meta_eq. simpl. tauto. Qed.
 
 (* a new name is a hard-link entry again, never a directory *)
 Lemma link_stat_is_hardlink t s : is_hardlink s = true -> is_hardlink (link_stat t s) = true.
 Proof.
-  intros Hs. unfold link_stat. destruct (is_reg t) eqn:Et; [|exact Hs].
+  intros Hs. unfold link_stat. destruct (is_node t) eqn:Et; [|exact Hs].
   unfold is_hardlink in *. apply andb_true_iff in Hs. destruct Hs as [_ Hl].
   apply andb_true_iff. split; [|exact Hl].
-  rewrite <- Et. apply is_reg_mode_eq. reflexivity.
+  rewrite <- Et. apply is_node_mode_eq. reflexivity.
 Qed.
 
 Lemma link_stat_not_dir t s : is_hardlink s = true -> st_is_dir (link_stat t s) = false.
 Proof.
-  intros Hs. apply (link_stat_is_hardlink t) in Hs. unfold is_hardlink, is_reg in Hs.
-  rewrite !andb_true_iff, !negb_true_iff in Hs. tauto.
+  intros Hs. apply (link_stat_is_hardlink t) in Hs. apply is_hardlink_node in Hs.
+  apply is_node_not_dir. tauto.
 Qed.
 
 (* ---------------------------------------------------------------- replay simulates apply *)
@@ -145,7 +160,7 @@ Proof. unfold AbsDest.digest. intros ->. reflexivity. Qed.
 Lemma is_hardlink_no_content st : is_hardlink st = true -> wants_content st = false.
 Proof.
   unfold is_hardlink, wants_content. intros E. apply andb_true_iff in E. destruct E as [E1 E2].
-  rewrite E1. simpl. apply negb_true_iff in E2. exact E2.
+  apply negb_true_iff in E2. rewrite E2. apply andb_false_r.
 Qed.
 
 Lemma dir_no_content st : st_is_dir st = true -> wants_content st = false.
